@@ -3,7 +3,8 @@
 //! Part (a), in-process: the fd hand-off codec (`ScmSocket::send_listeners` /
 //! `receive_listeners`) round-trips every listener set up to the documented fd limit, keeping
 //! address/kind/order and the identity of every open file, without leaking descriptors.
-//! Part (b), wire lab (soft stop and hand-over under traffic), lives in `c10_lab` (sub-check `softstop`).
+//! Part (b), wire lab (soft stop and hand-over under traffic), lives in `c10_lab` (sub-check `softstop`:
+//! plain HTTP/1.1) and `c10_lab2` (sub-check `softstop2`: HTTP/2, HTTPS, TCP and WebSocket sessions).
 
 use std::{
     net::SocketAddr,
@@ -314,7 +315,7 @@ fn run_case(case: &Case, rep: &mut CaseReport) -> Result<(), engine::Failure> {
 pub fn run(args: &Args) -> i32 {
     if args.shard.is_some() {
         // a lab child (the only lab sub-check of this property)
-        let st = super::c10_lab::child(args, args.cases(300, 3_000));
+        let st = if args.only.as_deref() == Some(super::c10_lab2::SUB) { super::c10_lab2::child(args, args.cases(super::c10_lab2::QUICK, super::c10_lab2::THOROUGH)) } else { super::c10_lab::child(args, args.cases(300, 3_000)) };
         return engine::shard::child_finish(args, &st);
     }
     let mut ev = Evidence::new(args, "exploration");
@@ -329,6 +330,11 @@ pub fn run(args: &Args) -> i32 {
     ev.assume("the master-side orchestration (fork/exec) is not run; the codec and the fd identity are");
     ev.rule(super::c10_lab::SUB, super::c10_lab::rule());
     ev.assume("softstop: the harness plays the main process (ReturnListenSockets, receive_listeners, SoftStop over the real command channel and SCM socket); no successor worker is started; requests whose head is only partly received at the stop, HTTP/2 streams, TLS listeners and TCP pipes in flight are not generated");
+    ev.rule(super::c10_lab2::SUB, super::c10_lab2::rule());
+    ev.assume("softstop2: same harness role as softstop; four shapes sozu gets wrong are excluded by construction and counted in excluded_known (see exclude_known in props/c10_lab2.rs), the committed strict reproducers regressions/C10/softstop2-known-*.json play them: an HTTP/2 request body still to come at the stop (GOAWAY STREAM_CLOSED); a new HTTP/2 stream crossing the initial GOAWAY on a connection with open streams (connection closed, streams cut); an HTTPS HTTP/1.1 response under back-pressure at the stop (transfer never resumes, timing dependent); an HTTP/2 response of more than 65535 bytes written at once by an HTTP/1.1 backend after the stop (stalls at the exhausted stream window). Not generated: request heads only partly received at the stop, HTTP/2 clients that stop reading, UDP listeners, a successor worker, a worker killed during the hand-over");
+    for (class, frac) in [("session_h2", 0.5), ("session_tlsh1", 0.35), ("session_tcp", 0.25), ("session_ws", 0.1), ("session_wss", 0.1), ("h2_backend_waiting", 0.4), ("h2_response_in_progress", 0.25), ("h2_2+_open_streams", 0.3), ("h2_backend_h1", 0.25), ("h2_backend_h2c", 0.25), ("handover", 0.2), ("2+_session_kinds", 0.5), ("2+_sessions_in_flight", 0.5), ("tlsh1_partial_body", 0.08), ("tlsh1_response_in_progress", 0.08), ("tcp_reply_pending", 0.1), ("tcp_both_ways", 0.1), ("ws_upgrade_pending", 0.03), ("wss_upgrade_pending", 0.03)] {
+        ev.floor(super::c10_lab2::SUB, class, frac);
+    }
     ev.floor(super::c10_lab::SUB, "2+_in_flight", 0.4);
     ev.floor(super::c10_lab::SUB, "handover", 0.25);
     ev.floor(super::c10_lab::SUB, "expect_100_continue", 0.15);
@@ -354,5 +360,6 @@ pub fn run(args: &Args) -> i32 {
         check,
     );
     engine::shard::run_sharded(&mut ev, args, super::c10_lab::SUB, 16, std::time::Duration::from_secs(args.tier.pick(600, 3600)));
+    engine::shard::run_sharded(&mut ev, args, super::c10_lab2::SUB, 16, std::time::Duration::from_secs(args.tier.pick(900, 5400)));
     ev.finish()
 }
